@@ -162,8 +162,11 @@ def finish(run, args):
 
     # bounded stand-ins (never counted as discharged obligations): native checks of assumed contracts
     bounded_runs = []
-    for h, what in getattr(mod, "BOUNDED", []):
-        res = native(h, dict(seed=run.seed, tier=run.tier), timeout=300)
+    for entry in getattr(mod, "BOUNDED", []):
+        h, what = entry[0], entry[1]
+        if len(entry) > 2 and entry[2] != run.tier:
+            continue            # a stand-in registered for one tier only
+        res = native(h, dict(seed=run.seed, tier=run.tier), timeout=1800 if run.tier == "thorough" else 300)
         bounded_runs.append(dict(harness=h, what=what, evaluations=res.get("evaluations"), ok=not res.get("violates"),
                                  error=res.get("error")))
         if res.get("error"):
